@@ -1069,6 +1069,7 @@ func runC06(c *Ctx) {
 		c.SetCount("cases_on_all_graphs_with_6_vertices", n6)
 		c.Rule += "; THOROUGH: additionally every labelled graph with 6 vertices (transformations, every pair for SplitEdge/Contract, all 1957 view sequences, decoder outputs), NewDense byte slices for n=5, Pruefer codes for n<=8, view histories for n=5"
 	}
+	c06Large(c)
 	// views stay live: query, edit the underlying graph, query again
 	var vcs []viewCase
 	for n := 2; n <= vhN; n++ {
@@ -1126,6 +1127,12 @@ func replayC06(kind string, raw json.RawMessage) *Failure {
 		return evalDecoderOutput(cc)
 	case "prufer-output":
 		return evalPruferOutput(cc)
+	case "transform-large":
+		var lc c06LargeCase
+		if err := json.Unmarshal(raw, &lc); err != nil {
+			return &Failure{Class: "replay/bad-file", What: err.Error()}
+		}
+		return evalC06Large(lc)
 	case "view-history":
 		var vc viewCase
 		json.Unmarshal(raw, &vc)
